@@ -600,7 +600,7 @@ fn cmd_hist(cases_path: &str, out_path: &str) -> anyhow::Result<()> {
                     let (rs, other) = r4s(all, &uri);
                     // the definition target (targetSelectionRange of the first link in this document), if any
                     let tg: Vec<J> = all.iter().filter(|r| r["key"] == "targetSelectionRange" && r["uri"].as_str() == Some(&uri)).map(|r| r["r"].clone()).collect();
-                    w.write(&json!({"a": "req", "u": u, "k": kind, "q": st["q"], "l": l, "c": ch, "obs": oj["obs"], "rs": rs, "tg": tg, "other": other}))?;
+                    w.write(&json!({"a": "req", "u": u, "t": st["t"], "k": kind, "q": st["q"], "l": l, "c": ch, "obs": oj["obs"], "rs": rs, "tg": tg, "other": other}))?;
                 }
                 _ => {}
             }
